@@ -5,8 +5,6 @@ type nat =
 | O
 | S of nat
 
-val option_map : ('a1 -> 'a2) -> 'a1 option -> 'a2 option
-
 val fst : ('a1 * 'a2) -> 'a1
 
 val snd : ('a1 * 'a2) -> 'a2
@@ -38,6 +36,11 @@ type z =
 | Zpos of positive
 | Zneg of positive
 
+module Nat :
+ sig
+  val min : nat -> nat -> nat
+ end
+
 module Pos :
  sig
   val succ : positive -> positive
@@ -53,6 +56,10 @@ module Pos :
   val mul : positive -> positive -> positive
 
   val iter : ('a1 -> 'a1) -> 'a1 -> positive -> 'a1
+
+  val div2 : positive -> positive
+
+  val div2_up : positive -> positive
 
   val compare_cont : comparison -> positive -> positive -> comparison
 
@@ -102,6 +109,8 @@ module Z :
 
   val opp : z -> z
 
+  val pred : z -> z
+
   val sub : z -> z -> z
 
   val mul : z -> z -> z
@@ -122,6 +131,8 @@ module Z :
 
   val eqb : z -> z -> bool
 
+  val min : z -> z -> z
+
   val to_nat : z -> nat
 
   val of_nat : nat -> z
@@ -136,308 +147,151 @@ module Z :
 
   val modulo : z -> z -> z
 
+  val odd : z -> bool
+
+  val div2 : z -> z
+
+  val shiftl : z -> z -> z
+
+  val shiftr : z -> z -> z
+
   val coq_lor : z -> z -> z
 
   val coq_land : z -> z -> z
+
+  val lnot : z -> z
  end
 
+val hd : 'a1 -> 'a1 list -> 'a1
+
+val tl : 'a1 list -> 'a1 list
+
 val nth : nat -> 'a1 list -> 'a1 -> 'a1
-
-val nth_error : 'a1 list -> nat -> 'a1 option
-
-val last : 'a1 list -> 'a1 -> 'a1
-
-val rev : 'a1 list -> 'a1 list
-
-val map : ('a1 -> 'a2) -> 'a1 list -> 'a2 list
-
-val fold_left : ('a1 -> 'a2 -> 'a1) -> 'a2 list -> 'a1 -> 'a1
-
-val existsb : ('a1 -> bool) -> 'a1 list -> bool
-
-val forallb : ('a1 -> bool) -> 'a1 list -> bool
-
-val filter : ('a1 -> bool) -> 'a1 list -> 'a1 list
 
 val firstn : nat -> 'a1 list -> 'a1 list
 
 val skipn : nat -> 'a1 list -> 'a1 list
 
-type jval =
-| JNull
-| JBool of bool
-| JI64 of z
-| JF64 of z
-| JStr of z list
-| JArr of jval list
-| JObj of (z list * jval) list
+val uw : z -> z -> z
 
-val bytes_eqb : z list -> z list -> bool
+val sw : z -> z -> z
 
-val jbinn_BINN_LIST : z
+val set_vnum_loop : nat -> z -> z list
 
-val jbinn_BINN_MAP : z
+val set_vnum64 : z -> z list
 
-val jbinn_BINN_OBJECT : z
+val set_vnum32 : z -> z list
 
-val jbinn_BINN_NULL : z
+val read_vnum_loop : z list -> z -> z -> nat -> (z * nat) option
 
-val jbinn_BINN_TRUE : z
+val read_vnum : z list -> (z * nat) option
 
-val jbinn_BINN_FALSE : z
+val iWNUMBUF_SIZE : z
 
-val jbinn_BINN_BOOL : z
+val ascii2hex_tbl : z list
 
-val jbinn_BINN_UINT8 : z
+val pREFIX_KEY_LEN_V2 : z
 
-val jbinn_BINN_INT8 : z
+val iW_VNUMBUFSZ : z
 
-val jbinn_BINN_UINT16 : z
+val iW_VNUMSIZE : z -> z
 
-val jbinn_BINN_INT16 : z
+val iW_VNUMSIZE32 : z -> z
 
-val jbinn_BINN_UINT32 : z
+val iW_RANGES_OVERLAP : z -> z -> z -> z -> z
 
-val jbinn_BINN_INT32 : z
+val iW_ROUNDUP : z -> z -> z
 
-val jbinn_BINN_UINT64 : z
+val iW_ROUNDOWN : z -> z -> z
 
-val jbinn_BINN_INT64 : z
+type mem = { m_len : z; m_init : (z -> z); m_wr : (z * z) list }
 
-val jbinn_BINN_FLOAT32 : z
+val rd_wr : (z * z) list -> (z -> z) -> z -> z
 
-val jbinn_BINN_FLOAT64 : z
+val inb : mem -> z -> bool
 
-val jbinn_BINN_DOUBLE : z
+val rd : mem -> z -> z option
 
-val jbinn_BINN_STRING : z
+val wr : mem -> z -> z -> mem option
 
-val jbinn_STORAGE_NOBYTES : z
+val peek : mem -> z -> z
 
-val jbinn_STORAGE_BYTE : z
+val shl1 : nat -> mem -> z -> mem option
 
-val jbinn_STORAGE_WORD : z
+val itoa_loop : nat -> z -> z -> z -> z -> z -> mem -> ((z * z) * mem) option
 
-val jbinn_STORAGE_DWORD : z
+val rev_loop : nat -> z -> z -> mem -> mem option
 
-val jbinn_STORAGE_QWORD : z
+val int64_min_text : z list
 
-val jbinn_STORAGE_STRING : z
+val wr_list : mem -> z -> z list -> mem option
 
-val jbinn_STORAGE_BLOB : z
+val itoa_digits : z -> mem -> z -> z -> z -> (z * mem) option
 
-val jbinn_STORAGE_CONTAINER : z
+val itoa : z -> mem -> z -> (z * mem) option
 
-val jbinn_STORAGE_MASK : z
+val cstr : nat -> mem -> z -> z list
 
-val jbinn_STORAGE_HAS_MORE : z
+val skip_ws : z list -> z list
 
-val jbinn_MIN_BINN_SIZE : z
+val atoi_digits : z list -> z -> z
 
-val jbinn_MAX_BIN_KEY_LEN : z
+val is_inf : z list -> bool
 
-val jbinn_JBL_MAX_NESTING_LEVEL : z
+val atoi : z list -> z
 
-val jbinn_sizeof_int : z
+val hexdigit : z -> z
 
-val jbinn_UINT8_MAX : z
+val bin2hex : z list -> z list
 
-val jbinn_UINT16_MAX : z
+val a2h : z -> z
 
-val jbinn_UINT32_MAX : z
+val hex2bin_even : z list -> z list
 
-val jbinn_INT8_MIN : z
+val hex2bin : z list -> z list
 
-val jbinn_INT16_MIN : z
+type kmode = { km_vnum : bool; km_real : bool; km_compound : bool }
 
-val jbinn_INT32_MIN : z
+val cmp2 : z list -> z list -> z
 
-val jbinn_STRING_KEEPS_NUL : z
+val sgn3 : z -> z -> z
 
-val be_bytes : nat -> z -> z list
+val read_vnum2 : z list -> z
 
-val be_val : nat -> z list -> z option
+val strncmp : nat -> z list -> z list -> z
 
-val cstr : z list -> z list
+val memcmp : nat -> z list -> z list -> z
 
-val zlen : 'a1 list -> z
+val af_skip : z list -> z list
 
-val zskip : z -> 'a1 list -> 'a1 list
+val af_int : z list -> z -> z * z list
 
-val zfirst : z -> 'a1 list -> 'a1 list
+val af_frac : z list -> nat -> z -> z -> z * z
 
-val tolower : z -> z
+val af_part : z list -> (z * z) * z list
 
-val strnieq : z list -> z list -> nat -> bool
+val af_hasfrac : z list -> bool
 
-val rd_field : z list -> (z * z) option
+val af_fracval : z -> z list -> z * z
 
-val read_hdr : z list -> (((z * z) * z) * z) option
+val afcmp : (nat -> z list -> z list -> z) -> z list -> z list -> z
 
-val advance : z list -> z -> (z list * z) option
+val vnum_cmp : z list -> z list -> z
 
-type bval = { bt : z; bnum : z; bsize : z; bcount : z; bptr : z list }
+val cmp_keys_prefix :
+  (nat -> z list -> z list -> z) -> kmode -> z list -> z list -> z -> z
 
-val get_value : z list -> bval option
+val cmp_keys :
+  (nat -> z list -> z list -> z) -> kmode -> z list -> z list -> z -> z
 
-type biter = { it_p : (z list * z) option; it_cur : z; it_cnt : z; it_type : z }
+val stored : kmode -> z list -> z -> z list
 
-val iter_init : z list -> z -> biter option
+val kcmp :
+  (nat -> z list -> z list -> z) -> kmode -> (z list * z) -> (z list * z) -> z
 
-val list_next : biter -> (bval * biter) option
+val sblk_cmp_key :
+  (nat -> z list -> z list -> z) -> kmode -> z list -> bool -> z list -> z ->
+  z option
 
-val object_next : biter -> ((z list * bval) * biter) option
-
-val list_items : nat -> biter -> bval list
-
-val obj_items : nat -> biter -> (z list * bval) list
-
-val iter_fuel : biter -> nat
-
-val sx : z -> z -> z
-
-val create_scalar : bval -> jval option
-
-val dec_node : nat -> bval -> jval option
-
-val root_bval : z list -> bval option
-
-val binn_decode : z list -> jval option
-
-val compress_int : z -> z * nat
-
-val wr_field : z -> z list
-
-val save_header : z -> z list -> z -> z list option
-
-val search_key : nat -> z list -> z -> z list -> bool
-
-val enc_item : jval -> z list option
-
-val binn_encode : jval -> z list option
-
-val binn_clone : z list -> z list option
-
-val binn_clone_into_pool : z list -> z list option
-
-val char_ok : z -> bool
-
-val key_ieq : z list -> z list -> bool
-
-val keys_unique : z list list -> bool
-
-val wf : jval -> bool
-
-type pres =
-| PErr
-| PUndef
-| POk of z list list
-
-val seg_scan : z list -> z list -> (z list * z list) option
-
-val segs_scan : nat -> z list -> z list list option
-
-val count_slash : z list -> nat
-
-val ptr_parse3 : z list -> pres
-
-val rfc_unescape : z list -> z list option
-
-val split_slash : z list -> z list -> z list list
-
-val all_some : 'a1 option list -> 'a1 list option
-
-val rfc_ptr_parse : z list -> z list list option
-
-val is_digit : z -> bool
-
-val rfc_index : z list -> z option
-
-val find_key : z list -> (z list * jval) list -> jval option
-
-val rfc6901_at : z list list -> jval -> jval option
-
-val digits_rev : nat -> z -> z list
-
-val itoa : z -> z list
-
-val star : z list -> bool
-
-val seg_at : z list list -> z -> z list
-
-val strncmp_eq : z list -> z list -> z -> bool
-
-val upd_jbl : z list list -> z -> z -> z list option -> z -> z * bool
-
-val upd_jbn : z list list -> z -> z -> z list option -> z -> z * bool
-
-type 'n kres =
-| KNot
-| KErr of z
-| KSome of ((z list option * z) * 'n) list
-
-val e_INVALID : z
-
-val e_NESTING : z
-
-val e_FUEL : z
-
-val e_DECODE : z
-
-type 'n vst = { v_pos : z; v_res : 'n option; v_term : bool }
-
-type 'n vr =
-| VErr of z
-| VOk of 'n vst
-
-val visit :
-  ('a1 -> 'a1 kres) -> (z list list -> z -> z -> z list option -> z ->
-  z * bool) -> bool -> z list list -> nat -> z -> ((z list option * z) * 'a1)
-  list -> 'a1 vst -> 'a1 vr
-
-type 'n at_res =
-| AtFound of 'n
-| AtNotFound
-| AtPtrErr
-| AtPtrUndef
-| AtErr of z
-
-val at_fuel : z list list -> nat
-
-val number : z -> 'a1 list -> ((z list option * z) * 'a1) list
-
-val kids_j : jval -> jval kres
-
-val at_tree2 : jval -> z list list -> jval at_res
-
-val at_tree : jval -> z list -> jval at_res
-
-val kids_b : bval -> bval kres
-
-val at_bval2 : bval -> z list list -> bval at_res
-
-val at_binn2 : z list -> z list list -> jval at_res
-
-val at_binn : z list -> z list -> jval at_res
-
-type cframe = { f_key : z list option; f_obj : bool;
-                f_kids : (z list option * jval) list }
-
-type cst = { c_stack : cframe list; c_pend : (z list option * bool) option;
-             c_pos : z }
-
-val frame_val : cframe -> jval
-
-val add_kid : (z list option * jval) -> cframe list -> cframe list
-
-val flush : cst -> cst
-
-val pop1 : cframe list -> cframe list
-
-val popn : nat -> cframe list -> cframe list
-
-val clone_visit : z -> z list option -> jval -> cst -> cst
-
-val clone_walk : z -> jval -> cst -> cst
-
-val jbn_clone : jval -> jval
+val sblk_cmp_key_full :
+  (nat -> z list -> z list -> z) -> kmode -> z list -> z list -> z -> z
